@@ -36,14 +36,16 @@ RULE = ("random operation sequences (1-30 operations: array=/array_2d=/array_3d=
         "Detector.empty, detector-level setters, reads, ==) on the five containers of two detectors "
         "(CCD/CMOS/MKID/APD, 1-5 rows/cols, same or different geometry) with arrays of right/wrong shape, "
         "17 dtypes, negative/NaN/inf/huge values, 2-D and 3-D photons; plus a deterministic grid "
-        "(kind x shape class x dtype x pre-state x operation), an equality grid and real model pipelines "
+        "(kind x shape class x dtype x pre-state x operation), an equality grid, a refused-addition-on-empty grid "
+        "(route to empty x unstorable operand class x +=/+ -> read -> compare with an empty twin) and real model pipelines "
         "with the invariants switched on; a case is non-trivial when it holds >=2 operations of which "
         ">=1 mutates a container; distinct = distinct (detectors, operation list) signatures")
 ASSUMPTIONS = [
     "emptiness and content are observed through the public attributes only (.array/.array_3d raising ValueError = empty)",
     "the expected geometry of a container is what its constructor received (recorded by a wrapper of __init__)",
-    "behaviour the statement leaves open (list-likes, long double, NaN, dimension switches, += on an empty "
-    "container, negative sums after +=) is counted, not judged",
+    "behaviour the statement leaves open (list-likes, long double, NaN, dimension switches, whether += on an empty "
+    "container stores the operand or is refused, negative sums after +=) is counted, not judged; a *refused* += / + "
+    "on an empty container must leave it empty (nothing was ever assigned)",
     "arrays handed to a container are never modified by the harness afterwards (ArrayBase keeps a reference)",
 ]
 REQUIRED_COUNTERS = [
@@ -52,6 +54,7 @@ REQUIRED_COUNTERS = [
     "ops_set3d", "rejected_checked_unchanged", "accepted_checked_content", "read_empty_raised",
     "eq_checked", "eq_expected_true", "eq_expected_false", "photon_negative_assigned_clipped",
     "iadd_sum_checked", "reset_checked", "model_runs_ok", "inv_evals_in_models", "grid_cells",
+    "iadd_refused_on_empty_checked",
 ]
 TIMEOUT = {"quick": 900, "thorough": 5400}
 
@@ -846,6 +849,18 @@ class Case:
             if not bad_after and not bad_before and not states_same_bits(before, after):
                 if assign or label == "empty":
                     self.viol(f"{mech}:rejected-but-content-changed", ctx, d)
+                elif before is None:
+                    # `+=` / `+` on an EMPTY container: there is nothing to add to, so the operation can
+                    # only be the assignment of the operand (what today's code does) or be refused.
+                    # STATEMENT: "an assignment that violates this raises an error and leaves the previous
+                    # content untouched" and "reading an empty container raises an explanatory error
+                    # instead of returning ... data": a container whose every operation so far was
+                    # refused (or a reset) has never been given data, hence must still read as empty.
+                    # (Added after a seeded change -- zero-fill the empty container, then add -- was
+                    # missed: the refused addition left zeros nobody assigned and the harness resynced
+                    # its reference bucket to them.)
+                    rec.count("iadd_refused_on_empty_not_empty")
+                    self.viol(f"{mech}:rejected-on-empty-but-no-longer-empty", ctx, d)
                 else:
                     # The sentence of the statement speaks of an *assignment*; `+=` / `+` are "in-place
                     # additions".  Seen on the pinned tree: `pixel += <DataArray>` adds in place and then
@@ -855,6 +870,8 @@ class Case:
                     rec.observe("iadd_refused_but_content_changed", f"{slot.kind}:{type(value).__name__}:{type(exc).__name__}")
             elif assign:
                 rec.count("rejected_checked_unchanged")
+            elif before is None and after is None and label in ("+=", "+"):
+                rec.count("iadd_refused_on_empty_checked")
             if pred.outcome == "accept":
                 self.viol(f"{mech}:valid-rejected", ctx, d)
             elif pred.outcome == "accept_soft":
@@ -1451,6 +1468,55 @@ def grid_reads(rec, index, spec_a) -> None:
         rec.case(["grid_reads", route, case.specs], True)
 
 
+EMPTY_ROUTES = ["never-initialised", "set-then-empty", "update-none", "detector.empty", "rejected-set"]
+
+
+def grid_refused_on_empty(rec, index, spec_a, rng) -> None:
+    """History class: container brought to EMPTY along every route -> `+=` / `+` with an operand that cannot
+    be stored (every wrong-shape class x an allowed dtype, the right shape x every dtype that is not
+    allowed, random combinations; wrong 3-D operands for the photon) -> read -> compare with the
+    never-touched twin of detector B.  A refused addition must leave the container empty, the read
+    must raise the explanatory error and the container must still equal the empty twin."""
+    dims_bad = [{"yx": yx, "dims": "ok"} for yx in ("T", "r+1", "c-1", "c+1")] + [{"yx": "ok", "dims": dv} for dv in ("2d", "4d")]
+    for kind in KINDS:
+        name, twin = f"A.{kind}", f"B.{kind}"
+        good = CERTAIN["u" if kind == "image" else "f"]
+        operands = [{"form": "ndarray", "shape": sh, "dtype": rng.choice(good)} for sh in SHAPES if sh != "ok"]
+        operands += [{"form": "ndarray", "shape": "ok", "dtype": dt} for dt in DTYPES if not dtype_allowed(kind, dt)]
+        operands += [{"form": "ndarray", "shape": rng.choice(SHAPES[1:]), "dtype": rng.choice(DTYPES)} for _ in range(6)]
+        operands += [{"form": rng.choice(["list", "scalar", "none", "dataarray2d"]), "shape": "ok", "dtype": "float64"}]
+        if kind == "photon":
+            operands += [dict(var, form="dataarray", nw=rng.randint(1, 3), coords="ok", dtype=rng.choice(good)) for var in dims_bad]
+            operands += [{"form": "dataarray", "nw": 2, "yx": "ok", "dims": "ok", "coords": "ok", "dtype": dt}
+                         for dt in ("int32", "uint16", "complex64", "bool")]
+        for k, operand in enumerate(operands):
+            route = EMPTY_ROUTES[(k + rng.randint(0, len(EMPTY_ROUTES) - 1)) % len(EMPTY_ROUTES)]
+            case = Case(rec, index, spec_a, dict(spec_a), f"grid_refused_on_empty:{kind}:{route}")
+            if route != "never-initialised":
+                if route == "rejected-set":
+                    case.step({"op": "set", "slot": name, "attr": "array", "value": dict(valid_desc(kind), shape="c+1")})
+                else:
+                    force(case, name, "3d" if (kind == "photon" and rng.random() < 0.3) else "filled", rng.choice(FINITE_PATTERNS))
+                    if route == "set-then-empty":
+                        force(case, name, "empty")
+                    elif route == "update-none":
+                        case.step({"op": "update", "slot": name, "value": None} if kind != "photon" else {"op": "empty", "slot": name})
+                    else:
+                        case.step({"op": "det_empty", "det": "A", "reset": True})
+            slot = case.slots[name]
+            if slot.model.state is not None:
+                rec.count("refused_on_empty_route_not_empty")   # e.g. the stand-alone Phase of a non-MKID detector
+                force(case, name, "empty")
+            value = dict(operand, pattern=rng.choice(PATTERNS), layout=rng.choice(LAYOUTS), salt=rng.randint(0, 1))
+            case.step({"op": "iadd", "slot": name, "value": value, "binary": rng.random() < 0.3})
+            case.step({"op": "read", "slot": name, "attr": rng.choice(["array", "array", "dtype", "asarray"])})
+            case.step({"op": "eq", "x": name, "y": twin})
+            rec.observe("refused_on_empty_routes", f"{kind}:{route}")
+            rec.count("grid_cells")
+            rec.case(["grid_refused_on_empty", case.specs, kind, route, json.dumps(value, sort_keys=True)], True,
+                     sample={"detectors": case.specs, "ops": case.trace[-4:]})
+
+
 def grid_det_set(rec, index, spec_a) -> None:
     case = Case(rec, index, spec_a, dict(spec_a), "grid_det_set")
     rows, cols = spec_a["rows"], spec_a["cols"]
@@ -1486,6 +1552,7 @@ def run_grid(spec, rec) -> None:
         rec.observe("detector_kinds", kind)
         case = Case(rec, index, spec_a, {"kind": DET_KINDS[(part + 1) % 4], "rows": rows, "cols": cols}, f"grid:{part}")
         grid_assign(case, rec, part, parts)
+        grid_refused_on_empty(rec, index, spec_a, rng)
         extra = part % 4
         if extra == 0:
             grid_photon3d(case, rec)
